@@ -321,6 +321,37 @@ fn factors<S: Fl>(full: bool) -> Vec<S> {
     v
 }
 
+/// hue-seam product for the SIMD-vs-scalar comparison (linear cost): both hues over the multiples of
+/// 90° in ±540°, the neighbours of ±180° and two generic angles, so that every signed hue difference
+/// k·90° (in particular exactly ±180°, where "the shorter way round" flips) occurs, x every factor
+pub fn seam_states<S: Fl>(kind: Kind, full: bool) -> Vec<State<S>> {
+    let hue_slot = match kind {
+        Kind::Hsv(_) | Kind::Hsl(_) | Kind::Hwb(_) => 0,
+        Kind::Lch(_) | Kind::Oklch => 2,
+        _ => return vec![],
+    };
+    let mut hs: Vec<S> = (-6..=6).map(|k| S::from64(k as f64 * 90.0)).collect();
+    hs.extend([S::from64(180.0).up(), S::from64(180.0).down(), S::from64(-180.0).up(), S::from64(-180.0).down(), S::from64(30.0), S::from64(-100.0)]);
+    if full {
+        hs.extend([S::from64(45.0), S::from64(225.0), S::from64(359.5), S::from64(0.5), S::from64(720.0), S::from64(-0.0)]);
+    }
+    let (c, d) = colours::<S>(kind, false);
+    let (c0, d0) = (c[2], d[0]);
+    let f = factors::<S>(full);
+    let mut out = vec![];
+    for &h1 in &hs {
+        for &h2 in &hs {
+            for &t in &f {
+                let (mut x, mut y) = (c0, d0);
+                x[hue_slot] = h1;
+                y[hue_slot] = h2;
+                out.push((x, y, t));
+            }
+        }
+    }
+    out
+}
+
 pub fn states<S: Fl>(kind: Kind, full: bool) -> Vec<State<S>> {
     let (c, d) = colours::<S>(kind, full);
     let f = factors::<S>(full);
@@ -522,6 +553,7 @@ pub fn run_ops<V: Vect>(ctx: &Ctx, types: &[OpType<V>], total: &mut Collector) {
         avail.push(json!([t.name, names]));
     }
     let sts: Vec<Vec<State<V::S>>> = types.iter().map(|t| states::<V::S>(t.kind, full)).collect();
+    let seams: Vec<Vec<State<V::S>>> = types.iter().map(|t| seam_states::<V::S>(t.kind, full)).collect();
     // split each (type, op) by x-chunks for balance
     let mut work = vec![];
     for &(ti, oi) in &items {
@@ -533,7 +565,7 @@ pub fn run_ops<V: Vect>(ctx: &Ctx, types: &[OpType<V>], total: &mut Collector) {
             i += per;
         }
     }
-    let (work_r, sts_r) = (&work, &sts);
+    let (work_r, sts_r, seams_r) = (&work, &sts, &seams);
     let cc = pv::par::run_chunks(work.len(), |wi, c| {
         let (ti, oi, lo, hi) = work_r[wi];
         let t = &types[ti];
@@ -542,6 +574,14 @@ pub fn run_ops<V: Vect>(ctx: &Ctx, types: &[OpType<V>], total: &mut Collector) {
         // splat references of every state for this operator
         let refs: Vec<Option<[[V::S; 4]; MAXN]>> = st.iter().map(|s| run_v::<V>(fv, &[*s; MAXN][..V::N]).ok()).collect();
         let (mut states_n, mut tr, mut traces, mut nontriv) = (0u64, 0u64, 0u64, 0u64);
+        if lo == 0 {
+            for x in &seams_r[ti] {
+                let n = check_op_scalar(t, name, fv, fs, x, c, false);
+                states_n += 1;
+                tr += 2 * n;
+                traces += n;
+            }
+        }
         for xi in lo..hi {
             let x = &st[xi];
             // (2) vs scalar
@@ -583,11 +623,12 @@ pub fn run_ops<V: Vect>(ctx: &Ctx, types: &[OpType<V>], total: &mut Collector) {
         &sub,
         true,
         &format!(
-            "{} (type, operator) pairs discovered for {} over {} types; states = (colour, second colour, factor) products ({} states in total); lane-mix: every ordered pair of states of a type x every lane position (N = {}), all lanes bitwise vs f(splat); every state: every lane of f(splat) vs the scalar operator",
+            "{} (type, operator) pairs discovered for {} over {} types; states = (colour, second colour, factor) products ({} states in total) + hue-seam products (hue x hue x factor, {} states, SIMD-vs-scalar only); lane-mix: every ordered pair of states of a type x every lane position (N = {}), all lanes bitwise vs f(splat); every state: every lane of f(splat) vs the scalar operator",
             items.len(),
             V::NAME,
             types.len(),
             sts.iter().map(|s| s.len()).sum::<usize>(),
+            seams.iter().map(|s| s.len()).sum::<usize>(),
             V::N
         ),
     );
